@@ -200,6 +200,14 @@ type C19Abandon struct {
 }
 
 type C19Case struct {
+	// the runtime's life cycle before the plan runs: Stop() before the first Start(), and
+	// Restarts stop/start cycles of the same Adaptation object, each preceded by a session of
+	// one plugin issuing SessionCall if RestartSessions is set
+	PreStop         bool    `json:"pre_stop,omitempty"`
+	Restarts        int     `json:"restarts,omitempty"`
+	RestartSessions bool    `json:"restart_sessions,omitempty"`
+	SessionCall     C19Call `json:"session_call,omitempty"`
+
 	Abandon *C19Abandon `json:"abandon,omitempty"`
 	Plugins []C19Plugin `json:"plugins"`
 	// executed one after the other once the up-front plugins have registered
@@ -409,6 +417,14 @@ func genC19(t *rapid.T) C19Case {
 	if rapid.IntRange(0, 2).Draw(t, "unstarted") == 0 {
 		c.Unstarted = rapid.SliceOfN(genC19Call(true), 1, 2).Draw(t, "unstarted_calls")
 	}
+	c.PreStop = rapid.IntRange(0, 9).Draw(t, "pre_stop") == 9
+	c.Restarts = rapid.SampledFrom([]int{0, 0, 0, 0, 0, 1, 1, 2}).Draw(t, "restarts")
+	if c.Restarts > 0 {
+		c.RestartSessions = rapid.Bool().Draw(t, "restart_sessions")
+		if c.RestartSessions {
+			c.SessionCall = genC19Call(false).Draw(t, "session_call")
+		}
+	}
 	nf := rapid.SampledFrom([]int{0, 0, 0, 1, 1, 2}).Draw(t, "failed_starts")
 	for i := 0; i < nf; i++ {
 		fs := C19FailedStart{Calls: rapid.SliceOfN(genC19Call(false), 1, 2).Draw(t, "failed_start_calls")}
@@ -534,7 +550,7 @@ var c19CaseCtr atomic.Int64
 
 type c19Exec struct {
 	c   C19Case
-	rt  *fx.Runtime
+	rt  *lcRuntime
 	no  int64
 	ctr atomic.Int64
 
@@ -868,7 +884,15 @@ func (x *c19Exec) issueMode(s stub.Stub, plugin, kind, mode, where string, call 
 // healthy tree it takes the stub's own 5 s start timer firing during a millisecond
 // operation. If a re-execution passes, the case counts as overloaded.
 func runC19(c C19Case) ev.Outcome {
-	var o ev.Outcome
+	// a verdict that took several executions (tens of seconds) to confirm is remembered for
+	// the identical case: rapid re-runs the final failing case once more to report it
+	key := string(ev.Snapshot(c))
+	c19Confirmed.Lock()
+	o, ok := c19Confirmed.m[key]
+	c19Confirmed.Unlock()
+	if ok {
+		return o
+	}
 	for attempt := 1; ; attempt++ {
 		var need int
 		o, need = runC19Once(c)
@@ -879,10 +903,20 @@ func runC19(c C19Case) ev.Outcome {
 			return o
 		}
 		if attempt >= need {
+			if need > 1 {
+				c19Confirmed.Lock()
+				c19Confirmed.m[key] = o
+				c19Confirmed.Unlock()
+			}
 			return o
 		}
 	}
 }
+
+var c19Confirmed = struct {
+	sync.Mutex
+	m map[string]ev.Outcome
+}{m: map[string]ev.Outcome{}}
 
 func runC19Once(c C19Case) (ev.Outcome, int) {
 	if len(c.Plugins) == 0 || len(c.Plugins) > 8 {
@@ -900,12 +934,35 @@ func runC19Once(c C19Case) (ev.Outcome, int) {
 	if len(earlyIdx) == 0 {
 		return ev.Outcome{Excluded: "no-plugin-registered-up-front"}, 1
 	}
-	rt, err := fx.NewRuntime()
+	rt, err := newLCRuntime(c.PreStop)
 	if err != nil {
 		return ev.Outcome{Overloaded: true, Classes: []string{"infra:" + shortErr(err)}}, 1
 	}
 	x := &c19Exec{c: c, rt: rt, no: c19CaseCtr.Add(1), plans: map[string]C19Call{}}
-	rt.UpdateFn = x.updateFn
+	rt.setUpdateFn(x.updateFn)
+
+	// the runtime's own life cycle: the same Adaptation object is stopped and started again,
+	// optionally with a session (one plugin, one update) before each stop
+	var sessions []*c19Live
+	for i := 0; i < c.Restarts && i < 2; i++ {
+		if c.RestartSessions {
+			l := x.connect(300+i, C19Plugin{Idx: fmt.Sprintf("4%d", i)})
+			sessions = append(sessions, l)
+			if l.ok {
+				x.issue(l.p.Stub, l.p.Name, kUpdater, fmt.Sprintf("w%d", i), c.SessionCall, false)
+			}
+		}
+		err := rt.Restart()
+		for _, l := range sessions {
+			if l.p.Stub != nil {
+				l.p.Stub.Stop() // Stop() left the connection open; the plugin is not listed any more
+			}
+		}
+		if err != nil {
+			rt.Stop()
+			return ev.Outcome{Overloaded: true, Classes: []string{"infra:restart: " + shortErr(err)}}, 1
+		}
+	}
 
 	live := make([]*c19Live, len(c.Plugins))
 	// phase 1: the plugins that register up front, one after the other
@@ -1379,6 +1436,15 @@ func judgeC19(c C19Case, h *c19Hist) (ev.Outcome, int) {
 	}
 	if emptySeen != emptyIssued {
 		return fail(atOnce, "%d empty update lists were sent, UpdateFn was called %d times with an empty list", emptyIssued, emptySeen)
+	}
+	if c.PreStop {
+		classes["runtime-stopped-before-first-start"] = true
+	}
+	if c.Restarts > 0 {
+		classes["runtime-restarted"] = true
+		if c.RestartSessions {
+			classes["runtime-restarted-between-sessions"] = true
+		}
 	}
 	if m := h.Abandon; m != nil {
 		classes["abandon-shape"] = true
